@@ -13,6 +13,8 @@ K = 12                        # slot invocations per perform allowed by both dri
 
 
 def fmt_op(o):
+    if o[0] == "L":
+        return "L %d %d %d %s" % (o[1], o[2], o[3], "-" if o[4] < 0 else o[4])
     return " ".join(str(x) for x in o)
 
 
@@ -29,7 +31,7 @@ def parse_case(line):
 
     def pop(s):
         t = s.split()
-        return tuple([t[0]] + [int(x) for x in t[1:]])
+        return tuple([t[0]] + [(-1 if x == "-" else int(x)) for x in t[1:]])
     scripts = {}
     if sec[2] not in ("-", ""):
         for sc in sec[2].split(";"):
@@ -95,11 +97,68 @@ class Spec:
                 bad.append(("next-timeout-oversleeps", "next_timeout(%d) = %d but the earliest pending timer is due in %d" % (m, r, mn - self.now)))
 
 
+def _script(sp, body, items, i, bad):
+    """Run one script (slot body / call_events body) of the reference spec against the items the
+    implementation printed. Returns (i, status), status in ok | aborted | fatal."""
+    for so in body:
+        if sp.expect_err(so):
+            if i < len(items) and items[i] == "ERR:internal":
+                return i + 1, "aborted"
+            bad.append(("precondition-not-enforced", "scripted op %s should raise internal_error" % fmt_op(so)))
+            return i, "fatal"
+        if so[0] == "N":
+            if i < len(items) and items[i].startswith("N="):
+                sp.check_next(so[1], int(items[i][2:]), bad)
+                i += 1
+            else:
+                bad.append(("output-shape", "missing next_timeout value in script"))
+                return i, "fatal"
+        else:
+            sp.apply(so)
+    return i, "ok"
+
+
+def _dispatch(sp, scripts, t, items, i, bad, st):
+    """perform(t) of the reference spec against the printed items. Returns (i, status),
+    status in done | aborted | fuel | fatal."""
+    while i < len(items):
+        it = items[i]
+        if it.startswith("th="):
+            break
+        i += 1
+        if it == "FUEL":
+            return i, "fuel"
+        if it == "ERR:internal":
+            bad.append(("spurious-internal-error", "internal_error inside perform(%d) that the API preconditions do not explain" % t))
+            return i, "fatal"
+        if it.startswith("N=") or it.startswith("sc=") or it.startswith("r="):
+            bad.append(("output-shape", "unexpected item %s in perform log" % it))
+            return i, "fatal"
+        e = int(it)
+        st["fired"] = True
+        if e not in sp.due:
+            bad.append(("fired-not-scheduled", "entry %d fired at perform(%d) while not scheduled (fired twice / after erase)" % (e, t)))
+            return i, "fatal"
+        d = sp.due.pop(e)
+        if d > t:
+            bad.append(("fired-early", "entry %d due %d fired at perform(%d)" % (e, d, t)))
+        if sp.due and d > min(sp.due.values()):
+            bad.append(("fired-out-of-order", "entry %d due %d fired while a timer due %d was pending" % (e, d, min(sp.due.values()))))
+        i, stt = _script(sp, scripts.get(e, []), items, i, bad)
+        if stt != "ok":
+            return i, stt
+    late = [(e, d) for e, d in sp.due.items() if d <= t]
+    if late:
+        bad.append(("not-fired-when-due", "after perform(%d) entries still pending with due <= t: %s" % (t, sorted(late)[:4])))
+    return i, "done"
+
+
 def oracle(case, line):
     """Property C19 evaluated on ONE implementation output line. Returns list of (klass, text)."""
     if line.startswith("CRASH") or line.startswith("HARNESS-ERROR") or line.startswith("BADCASE") or line == "MISSING":
         return [("crash", "scheduler crashed / harness failed: " + line[:200])]
     n, k, valid, scripts, ops = parse_case(case)
+    scripted_T = any(o[0] == "T" for b in scripts.values() for o in b)
     head, _, tail = line.partition(" | ")
     toks = []
     cur = None
@@ -112,7 +171,7 @@ def oracle(case, line):
                 cur = None
             else:
                 cur.append(t)
-        elif t.startswith("P["):
+        elif t.startswith("P[") or t.startswith("L["):
             rest = t[2:]
             if rest.endswith("]"):
                 toks.append([rest[:-1]] if rest[:-1] else [])
@@ -124,63 +183,54 @@ def oracle(case, line):
     if len(toks) != len(ops):
         return [("output-shape", "number of result tokens differs from number of ops")]
     sp = Spec(n, valid)
-    fired_any = False
+    st = {"fired": False}
     for o, tk in zip(ops, toks):
         if o[0] == "P":
-            t = o[1]
             items = list(tk)
-            i = 0
-            aborted = False
-            while i < len(items) and not aborted:
-                it = items[i]
-                i += 1
-                if it == "FUEL":
-                    return bad + [("fuel", "")]      # harness budget hit: nothing more can be said
-                if it == "ERR:internal":
-                    bad.append(("spurious-internal-error", "internal_error inside perform(%d) that the API preconditions do not explain" % t))
-                    return bad
-                if it.startswith("N="):
-                    bad.append(("output-shape", "unexpected item %s in perform log" % it))
-                    aborted = True
-                    break
-                e = int(it)
-                fired_any = True
-                if e not in sp.due:
-                    bad.append(("fired-not-scheduled", "entry %d fired at perform(%d) while not scheduled (fired twice / after erase)" % (e, t)))
-                    return bad
-                d = sp.due.pop(e)
-                if d > t:
-                    bad.append(("fired-early", "entry %d due %d fired at perform(%d)" % (e, d, t)))
-                if sp.due and d > min(sp.due.values()):
-                    bad.append(("fired-out-of-order", "entry %d due %d fired while a timer due %d was pending" % (e, d, min(sp.due.values()))))
-                for so in scripts.get(e, []):
-                    if sp.expect_err(so):
-                        if i < len(items) and items[i] == "ERR:internal":
-                            i += 1
-                        else:
-                            bad.append(("precondition-not-enforced", "handler op %s should raise internal_error" % fmt_op(so)))
-                            return bad
-                        aborted = True
-                        break
-                    if so[0] == "N":
-                        if i < len(items) and items[i].startswith("N="):
-                            sp.check_next(so[1], int(items[i][2:]), bad)
-                            i += 1
-                        else:
-                            bad.append(("output-shape", "missing next_timeout value in handler"))
-                            aborted = True
-                            break
-                    else:
-                        sp.apply(so)
-            if aborted:
+            i, stt = _dispatch(sp, scripts, o[1], items, 0, bad, st)
+            if stt == "fuel":
+                return bad + [("fuel", "")]
+            if stt == "fatal":
+                return bad
+            if i != len(items):
+                bad.append(("output-shape", "items after the end of a dispatch"))
+                return bad
+        elif o[0] == "L":
+            # one event-loop iteration: clock t1 -> call_events (d, script c) -> clock t1+d -> perform -> poll timeout
+            t1, d, m, c = o[1], o[2], o[3], o[4]
+            items = list(tk)
+            sp.now = t1
+            i, stt = _script(sp, scripts.get(c, []) if c >= 0 else [], items, 0, bad)
+            if stt == "fatal":
+                return bad
+            if stt == "aborted":
                 if i != len(items):
-                    bad.append(("output-shape", "items after an aborted dispatch"))
-                if bad and bad[-1][0] == "output-shape":
+                    bad.append(("output-shape", "items after an aborted iteration"))
                     return bad
                 continue
-            late = [(e, d) for e, d in sp.due.items() if d <= t]
-            if late:
-                bad.append(("not-fired-when-due", "after perform(%d) entries still pending with due <= t: %s" % (t, sorted(late)[:4])))
+            sp.now = t1 + d
+            i, stt = _dispatch(sp, scripts, t1 + d, items, i, bad, st)
+            if stt == "fuel":
+                return bad + [("fuel", "")]
+            if stt == "fatal":
+                return bad
+            if stt == "aborted":
+                if i != len(items):
+                    bad.append(("output-shape", "items after an aborted iteration"))
+                    return bad
+                continue
+            if len(items) - i != 3 or not (items[i].startswith("th=") and items[i + 1].startswith("sc=") and items[i + 2].startswith("r=")):
+                bad.append(("output-shape", "loop iteration without th/sc/r"))
+                return bad
+            r = int(items[i + 2][2:])
+            if not scripted_T and sp.due:
+                # the poll sleeps r starting no earlier than the real clock t1+d: it must not pass a pending timer
+                mn = min(sp.due.values())
+                if r > 0 and t1 + d + r > mn:
+                    bad.append(("loop-oversleeps", "event-loop iteration (clock %d after call_events) polls for %d us but the earliest pending timer is due in %d us: wakes %d us late"
+                                % (t1 + d, r, mn - (t1 + d), t1 + d + r - mn)))
+            if r > max(m, 0):
+                bad.append(("next-timeout-exceeds-max", "poll timeout %d exceeds the thread's own next_timeout %d" % (r, m)))
         else:
             exp = sp.expect_err(o)
             if tk == "ERR:internal":
@@ -206,7 +256,7 @@ def oracle(case, line):
             got[int(e)] = int(d)
     if got != sp.due:
         bad.append(("final-schedule-mismatch", "scheduled entries at the end %s differ from the reference %s" % (sorted(got.items())[:6], sorted(sp.due.items())[:6])))
-    if not bad and fired_any:
+    if not bad and st["fired"]:
         bad.append(("_nontrivial", ""))
     return bad
 
@@ -229,6 +279,12 @@ HAND = [
     (3, "-", {0: [("W", 1, B + 9)]}, [("W", 0, B + 1), ("W", 1, B + 1), ("W", 2, B + 1), ("P", B + 1), ("P", B + 1), ("N", 0)]),
     # re-arm in the past: runs until the harness' slot budget
     (2, "-", {0: [("U", 0, B + 1)]}, [("W", 0, B + 5), ("W", 1, B + 6), ("P", B + 9), ("N", 5), ("P", B + 9)]),
+    # event-loop iterations: timer due inside the busy interval of call_events, relative wait from a handler,
+    # poll timeout bounded by the thread's own timeout, script run by call_events
+    (3, "-", {0: [("G", 1, 7)], 2: [("F", 1, 100), ("N", 50)]},
+     [("W", 0, B + 5), ("W", 2, B + 90), ("L", B + 1, 3, 1000, -1), ("L", B + 3, 4, 1000, 2), ("L", B + 10, 5, 0, -1),
+      ("L", B + 20, 80, 600 * US, 2), ("N", 9)]),
+    (2, "-", {}, [("W", 0, B + 10 * US), ("W", 1, B + 50000), ("L", B, 300000, 600 * US, -1), ("L", B + 300000, 0, 600 * US, -1)]),
     # invalid entries
     (3, "101", {}, [("W", 1, B + 1), ("U", 1, B + 1), ("E", 1), ("W", 0, B + 1), ("P", B + 1)]),
     # many tombstones at the front, next_timeout pops them
@@ -322,6 +378,69 @@ def rnd_case(R, malformed=False, big=False):
     return make_case(n, K, mask, scripts, ops)
 
 
+def rnd_loop_case(R):
+    """Event-loop iterations (op L) through the real Thread::process_events: the clock only moves
+    forward, call_events takes d, timers are due before / inside / after the busy interval."""
+    n = R.choice([1, 2, 3, 3, 4, 6])
+    base = B + R.choice([0, 5, US - 2, 1000 * US])
+    wide = R.choice([8, 40, 3 * US])
+    scripts = {}
+    for e in range(n):
+        if R.random() < 0.5:
+            body = []
+            for _ in range(R.choice([1, 1, 2, 3])):
+                y = R.random()
+                e2 = R.randrange(n)
+                if y < 0.25:
+                    body.append(("G", e2, R.choice([0, 1, 2, 5, 9, US, wide])))      # relative to the scheduler's clock
+                elif y < 0.40:
+                    body.append(("F", e2, R.choice([1, 3, 8, US])))
+                elif y < 0.55:
+                    body.append(("U", e2, base + R.randrange(0, wide)))
+                elif y < 0.70:
+                    body.append(("E", e2))
+                elif y < 0.85:
+                    body.append(("N", R.choice([0, 3, 100, 10 * US])))
+                else:
+                    body.append(("D", e2, R.choice([0, 1, US - 1])))
+            scripts[e] = body
+    ops = []
+    clock = base - R.choice([0, 1, 3])
+    L = R.choice([3, 5, 8, 12, 20])
+    while len(ops) < L:
+        x = R.random()
+        if x < 0.45:
+            d = R.choice([0, 0, 1, 2, 3, 7, 30, US, 2 * US + 1])
+            m = R.choice([0, 1, 5, 50, 1000, 10 * 60 * US, 10 * 60 * US, -1])
+            c = R.choice([-1, -1] + list(scripts.keys()))
+            ops.append(("L", clock, d, m, c))
+            clock += d + R.choice([0, 1, 2, 5, wide // 2])
+        elif x < 0.70:
+            ops.append(("W", R.randrange(n), clock + R.choice([-1, 0, 1, 2, 3, 5, 8, wide, US])))
+        elif x < 0.82:
+            ops.append(("U", R.randrange(n), clock + R.choice([0, 1, 2, 4, 9, wide])))
+        elif x < 0.90:
+            ops.append(("E", R.randrange(n)))
+        elif x < 0.95:
+            ops.append(("G", R.randrange(n), R.choice([0, 1, 4, US])))
+        else:
+            ops.append(("N", R.choice([0, 7, 10 * US])))
+    return make_case(n, K, "-", scripts, ops)
+
+
+def loop_exhaustive(maxlen):
+    """All op lists of length <= maxlen over 2 entries x 2 times with loop iterations at 2 clock values x 2 durations."""
+    out = []
+    t = [B + 2, B + 4]
+    al = [("W", e, x) for e in range(2) for x in t] + [("U", e, x) for e in range(2) for x in t] + \
+         [("E", e) for e in range(2)] + [("L", c, d, 100, -1) for c in (B + 1, B + 3) for d in (0, 2)]
+    for cfg in [{}, {0: [("G", 1, 1)], 1: [("E", 0), ("F", 1, 3)]}]:
+        for L in range(1, maxlen + 1):
+            for ops in itertools.product(al, repeat=L):
+                out.append(make_case(2, K, "-", cfg, list(ops)))
+    return out
+
+
 def exhaustive(stats):
     """All op lists of length <= 4 over 3 entries x 3 due times (25 letters), and of length 5 over
     2 entries x 2 times (13 letters), each under two handler configurations."""
@@ -365,7 +484,12 @@ def gen(seed, tier):
         cases.append(rnd_case(R, malformed=True))
     for _ in range(nb):
         cases.append(rnd_case(R, big=True))
-    stats.update(structured=nv, malformed=nm, big=nb)
+    nl = 4000 if tier == "quick" else 40000
+    for _ in range(nl):
+        cases.append(rnd_loop_case(R))
+    le = loop_exhaustive(3 if tier == "quick" else 4)
+    cases += le
+    stats.update(structured=nv, malformed=nm, big=nb, loop_random=nl, loop_exhaustive=len(le))
     if tier == "thorough":
         cases += exhaustive(stats)
     else:
